@@ -18,13 +18,13 @@ type Member struct {
 	Val *JV    `json:"val"`
 }
 
-func JInt(l string) *JV   { return &JV{Kind: KInt, Lit: l} }
-func JFloat(l string) *JV { return &JV{Kind: KFloat, Lit: l} }
-func JStr(l string) *JV   { return &JV{Kind: KStr, Lit: l} } // with quotes
-func JBool(l string) *JV  { return &JV{Kind: KBool, Lit: l} }
-func JNull() *JV          { return &JV{Kind: KNull, Lit: "null"} }
+func JInt(l string) *JV    { return &JV{Kind: KInt, Lit: l} }
+func JFloat(l string) *JV  { return &JV{Kind: KFloat, Lit: l} }
+func JStr(l string) *JV    { return &JV{Kind: KStr, Lit: l} } // with quotes
+func JBool(l string) *JV   { return &JV{Kind: KBool, Lit: l} }
+func JNull() *JV           { return &JV{Kind: KNull, Lit: "null"} }
 func JObj(m ...Member) *JV { return &JV{Kind: KObj, Mem: m} }
-func JArr(a ...*JV) *JV   { return &JV{Kind: KArr, Arr: a} }
+func JArr(a ...*JV) *JV    { return &JV{Kind: KArr, Arr: a} }
 
 func (v *JV) Size() int {
 	s := 1
